@@ -26,11 +26,17 @@ Judge(e) ==
                   sk_roundtrip |-> e.sk_rt = "ok-equal" /\ e.sk_rt_bytes_equal,
                   pk_roundtrip |-> e.pk_rt = "ok-equal" /\ e.pk_rt_bytes_equal,
                   last_candidate_accepted |-> Len(e.cands) >= 1 /\ e.cands[Len(e.cands)].verdict = 0
-                                              /\ \A i \in 1..(Len(e.cands) - 1) : e.cands[i].verdict # 0]
+                                              /\ \A i \in 1..(Len(e.cands) - 1) : e.cands[i].verdict # 0,
+                  \* the retry loop as a machine: every candidate (reconstructed from the generator stream) got an admissible verdict,
+                  \* and the accepted one is the key
+                  candidate_machine |-> Len(e.cand_polys) = 0 \/
+                       (/\ Len(e.cand_polys) = Len(e.cands)
+                        /\ \A i \in 1..Len(e.cands) : CandidateAdmissible(e.cand_polys[i].f, e.cand_polys[i].g, e.cands[i].verdict, e.cands[i].gamma, P)
+                        /\ e.cand_polys[Len(e.cands)].f = e.f /\ e.cand_polys[Len(e.cands)].g = e.g)]
         \* keys constructed at the edge of the encodable range (tag edge-valid-key-*) are valid NTRU keys but not keygen outputs:
         \* only the NTRU equation, the public-key relation and the codec facts are demanded of them
         isEdge == Len(e.tag) >= 14 /\ SubSeq(e.tag, 1, 14) = "edge-valid-key"
-        failed == IF isEdge THEN (FailedOf(facts) \cap {"ntru_eq", "f_invertible", "pk_relation", "representable"}) \cup (FailedOf(codec) \ {"last_candidate_accepted"})
+        failed == IF isEdge THEN (FailedOf(facts) \cap {"ntru_eq", "f_invertible", "pk_relation", "representable"}) \cup (FailedOf(codec) \ {"last_candidate_accepted", "candidate_machine"})
                   ELSE FailedOf(facts) \cup FailedOf(codec)
     IN [ok |-> failed = {}, branch |-> IF failed = {} THEN "key-valid-n" \o ToString(e.n) ELSE "key-facts-failed", detail |-> failed]
   ELSE IF e.ev = "keylight" THEN
